@@ -34,20 +34,38 @@ Qed.
 (* ------------------------------------------------------------------ *)
 (** * vector<string> *)
 
-(** what is stored for an element: the element after all checks passed, with
-    all formats applied - the unique test sees the formatted value *)
+(** the range rule of TypedArgBase::format never hides a registered format: a
+    slot outside the table is an empty slot *)
+Lemma fmt_pos_nth o idx s : fmt_pos o idx s = apply_fmts (nth (idx + 1) (o_ftab o) []) s.
+Proof.
+  unfold fmt_pos. destruct (Nat.ltb_spec (idx + 1) (length (o_ftab o))); auto.
+  rewrite nth_overflow by lia. reflexivity.
+Qed.
+
+(** no position formats registered *)
+Definition pos_free (o : copts) : Prop := forall idx s, fmt_pos o idx s = s.
+
+(** what is stored for an element that lands at position [pos]: the element
+    after all checks passed, with the general formats and then the formats of
+    that position applied - the unique test sees this value *)
+Definition conv_str_at (o : copts) (pos : nat) (t : str) : res str :=
+  do _ <- run_checks (o_checks o) t; Ok (fmt_pos o pos (apply_fmts (o_fmts o) t)).
 Definition conv_str (o : copts) (t : str) : res str :=
   do _ <- run_checks (o_checks o) t; Ok (apply_fmts (o_fmts o) t).
 
+Lemma conv_str_at_free o pos t : pos_free o -> conv_str_at o pos t = conv_str o t.
+Proof. intros H. unfold conv_str_at, conv_str. rewrite H. reflexivity. Qed.
+
 Lemma step_strs_spec o t l l' :
   step_strs o t l = Ok l' ->
-  exists v, conv_str o t = Ok v /\
+  exists v, conv_str_at o (length l) t = Ok v /\
     ((o_uniq o = true /\ In v l /\ o_dup_err o = false /\ l' = l) \/
      ((o_uniq o = false \/ ~ In v l) /\ l' = l ++ [v])).
 Proof.
-  unfold step_strs, conv_str. intros H. inv_bind H. exists (apply_fmts (o_fmts o) t). simpl. split; auto.
+  unfold step_strs, conv_str_at. intros H. inv_bind H.
+  exists (fmt_pos o (length l) (apply_fmts (o_fmts o) t)). simpl. split; auto.
   destruct (o_uniq o) eqn:Eu; simpl in H.
-  - destruct (str_in (apply_fmts (o_fmts o) t) l) eqn:Ez.
+  - destruct (str_in (fmt_pos o (length l) (apply_fmts (o_fmts o) t)) l) eqn:Ez.
     + destruct (o_dup_err o) eqn:Ed; [discriminate H|]. inversion H; subst.
       left. repeat split; auto. apply str_in_iff; auto.
     + inversion H; subst. right. split; auto. right. intros Hin. apply str_in_iff in Hin. congruence.
@@ -68,22 +86,44 @@ Proof. intros ->. unfold start_strs. destruct (c_clearp st); reflexivity. Qed.
 Lemma norm_strs o l : exists l', norm o (CStrs l) = CStrs l' /\ Permutation l' l.
 Proof. unfold norm. destruct (o_sort o); simpl; eexists; split; eauto. apply sort_by_perm. Qed.
 
-(** unique data, duplicates dropped: no two equal strings, exactly the earlier
-    content and the formatted values of all elements *)
+(** unique data: never two equal strings in the destination - with or without
+    position formats *)
+Theorem cont_strs_unique_nodup p o st u rest st' l0 :
+  o_uniq o = true ->
+  c_val st = CStrs l0 -> NoDup (start_strs st l0) ->
+  run_uses_gen (step_gen p KVecStr o) o st (u :: rest) = Ok st' ->
+  exists l, c_val st' = CStrs l /\ NoDup l.
+Proof.
+  intros Hu Hv Hnd H.
+  apply (run_uses_hist (step_gen p KVecStr o) o (fun _ c => exists l, c = CStrs l /\ NoDup l)) in H; auto.
+  - intros ts t c c' [l [-> Hn]] Hs. rewrite step_strs_kind in Hs. inv_bind Hs.
+    inversion Hs; subst; clear Hs. apply step_strs_spec in E.
+    destruct E as [v [Hc [[_ [Hin [_ ->]]]|[Hor ->]]]]; [eauto|].
+    assert (Hnv : ~ In v l) by (destruct Hor as [Hor|Hor]; [congruence|auto]).
+    exists (l ++ [v]). split; auto.
+    eapply Permutation_NoDup; [apply Permutation_cons_append|]. constructor; auto.
+  - intros ts c [l [-> Hn]]. destruct (norm_strs o l) as [l' [-> Hp]]. exists l'. split; auto.
+    eapply Permutation_NoDup; [apply Permutation_sym; eauto|auto].
+  - intros ts c [l [-> Hr]]. simpl. eauto.
+  - rewrite (start_cont_strs st l0 Hv). eauto.
+Qed.
+
+(** unique data, duplicates dropped (no position formats): no two equal
+    strings, exactly the earlier content and the formatted values of all elements *)
 Theorem cont_strs_unique_drop p o st u rest st' l0 :
-  o_uniq o = true -> o_dup_err o = false ->
+  pos_free o -> o_uniq o = true -> o_dup_err o = false ->
   c_val st = CStrs l0 -> NoDup (start_strs st l0) ->
   run_uses_gen (step_gen p KVecStr o) o st (u :: rest) = Ok st' ->
   exists l, c_val st' = CStrs l /\ NoDup l /\
     forall z, In z l <-> In z (start_strs st l0) \/ exists t, In t (all_tokens o (u :: rest)) /\ conv_str o t = Ok z.
 Proof.
-  intros Hu Hd Hv Hnd H.
+  intros Hpf Hu Hd Hv Hnd H.
   set (s0 := start_strs st l0) in *.
   apply (run_uses_hist (step_gen p KVecStr o) o
           (fun ts c => exists l, c = CStrs l /\ NoDup l /\
              forall z, In z l <-> In z s0 \/ exists t, In t ts /\ conv_str o t = Ok z)) in H; auto.
   - intros ts t c c' [l [-> [Hn Hi]]] Hs. rewrite step_strs_kind in Hs. inv_bind Hs.
-    inversion Hs; subst; clear Hs. apply step_strs_spec in E.
+    inversion Hs; subst; clear Hs. apply step_strs_spec in E. rewrite (conv_str_at_free o _ _ Hpf) in E.
     destruct E as [v [Hc [[_ [Hin [_ ->]]]|[Hor ->]]]].
     + exists l. split; [auto|split; [auto|]]. intros z. rewrite Hi. split.
       * intros [H1|[t' [H1 H2]]]; auto. right. exists t'. rewrite in_app_iff. auto.
@@ -108,75 +148,223 @@ Proof.
     intros [Hz|[t [[] _]]]. auto.
 Qed.
 
-(** unique data, duplicates refused: accepted only if all formatted values are new *)
+(** the values of the elements [ts] when every one of them is stored, the first
+    at position [p]: general formats, then the formats of its own position *)
+Fixpoint pos_vals (o : copts) (p : nat) (ts : list str) : list str :=
+  match ts with
+  | [] => []
+  | t :: r => fmt_pos o p (apply_fmts (o_fmts o) t) :: pos_vals o (S p) r
+  end.
+
+Lemma pos_vals_length o ts : forall p, length (pos_vals o p ts) = length ts.
+Proof. induction ts; intros; simpl; auto. Qed.
+
+Lemma pos_vals_app o a : forall p b, pos_vals o p (a ++ b) = pos_vals o p a ++ pos_vals o (p + length a) b.
+Proof.
+  induction a as [|t r IH]; intros p b; simpl.
+  - rewrite Nat.add_0_r. reflexivity.
+  - rewrite IH. replace (S p + length r) with (p + S (length r)) by lia. reflexivity.
+Qed.
+
+(** unique data, duplicates refused: accepted only if all values are new; then
+    every element was stored, at the position after its predecessor *)
 Theorem cont_strs_unique_refuse p o st u rest st' l0 :
   o_uniq o = true -> o_dup_err o = true ->
   c_val st = CStrs l0 -> NoDup (start_strs st l0) ->
   run_uses_gen (step_gen p KVecStr o) o st (u :: rest) = Ok st' ->
-  exists l vals, c_val st' = CStrs l /\
-    Forall2 (fun t v => conv_str o t = Ok v) (all_tokens o (u :: rest)) vals /\
+  let vals := pos_vals o (length (start_strs st l0)) (all_tokens o (u :: rest)) in
+  exists l, c_val st' = CStrs l /\
     Permutation l (start_strs st l0 ++ vals) /\ NoDup (start_strs st l0 ++ vals) /\
     (o_sort o = false -> l = start_strs st l0 ++ vals).
 Proof.
   intros Hu Hd Hv Hnd H.
-  set (s0 := start_strs st l0) in *.
+  set (s0 := start_strs st l0) in *. simpl.
   apply (run_uses_hist (step_gen p KVecStr o) o
-          (fun ts c => exists l vals, c = CStrs l /\ Forall2 (fun t v => conv_str o t = Ok v) ts vals /\
-             Permutation l (s0 ++ vals) /\ NoDup l /\ (o_sort o = false -> l = s0 ++ vals))) in H; auto.
-  - destruct H as [l [vals [Hc [Hf [Hp [Hn He]]]]]]. exists l, vals. repeat split; auto.
+          (fun ts c => exists l, c = CStrs l /\
+             Permutation l (s0 ++ pos_vals o (length s0) ts) /\ NoDup l /\
+             (o_sort o = false -> l = s0 ++ pos_vals o (length s0) ts))) in H; auto.
+  - destruct H as [l [Hc [Hp [Hn He]]]]. exists l. repeat split; auto.
     eapply Permutation_NoDup; eauto.
-  - intros ts t c c' [l [vals [-> [Hf [Hp [Hn He]]]]]] Hs. rewrite step_strs_kind in Hs. inv_bind Hs.
+  - intros ts t c c' [l [-> [Hp [Hn He]]]] Hs. rewrite step_strs_kind in Hs. inv_bind Hs.
     inversion Hs; subst; clear Hs. apply step_strs_spec in E.
     destruct E as [v [Hc [[_ [_ [Hd' _]]]|[Hor ->]]]]; [congruence|].
     assert (Hnv : ~ In v l) by (destruct Hor as [Hor|Hor]; [congruence|auto]).
-    exists (l ++ [v]), (vals ++ [v]). repeat split.
-    + apply Forall2_app; auto.
+    assert (Hlen : length l = length s0 + length ts).
+    { rewrite (Permutation_length Hp), app_length, pos_vals_length. reflexivity. }
+    assert (Hv' : pos_vals o (length s0) (ts ++ [t]) = pos_vals o (length s0) ts ++ [v]).
+    { rewrite pos_vals_app. simpl. unfold conv_str_at in Hc. inv_bind Hc. inversion Hc; subst.
+      rewrite Hlen. reflexivity. }
+    exists (l ++ [v]). rewrite Hv'. repeat split.
     + rewrite app_assoc. apply Permutation_app_tail. auto.
     + eapply Permutation_NoDup; [apply Permutation_cons_append|]. constructor; auto.
     + intros Hs. rewrite (He Hs), app_assoc. reflexivity.
-  - intros ts c [l [vals [-> [Hf [Hp [Hn He]]]]]]. unfold norm. destruct (o_sort o) eqn:Es; simpl.
-    + exists (sort_by str_ltb l), vals. repeat split; auto; try discriminate.
+  - intros ts c [l [-> [Hp [Hn He]]]]. unfold norm. destruct (o_sort o) eqn:Es; simpl.
+    + exists (sort_by str_ltb l). repeat split; auto; try discriminate.
       * eapply perm_trans; [apply sort_by_perm|auto].
       * eapply Permutation_NoDup; [apply Permutation_sym, sort_by_perm|auto].
-    + exists l, vals. repeat split; auto.
-  - intros ts c [l [vals [-> Hr]]]. simpl. eauto.
-  - rewrite (start_cont_strs st l0 Hv). exists s0, []. rewrite app_nil_r. repeat split; auto.
+    + exists l. repeat split; auto.
+  - intros ts c [l [-> Hr]]. simpl. eauto.
+  - rewrite (start_cont_strs st l0 Hv). exists s0. simpl. rewrite app_nil_r. repeat split; auto.
 Qed.
 
-(** without unique data: the earlier content followed by the formatted values
-    of all elements in order - sorted in byte order if so configured *)
+(** without unique data: the earlier content followed by the values of all
+    elements in order, element i formatted for position |earlier content| + i,
+    whatever the cut into value strings - sorted in byte order if so configured *)
 Theorem cont_strs_content p o st u rest st' l0 :
   o_uniq o = false -> c_val st = CStrs l0 ->
   run_uses_gen (step_gen p KVecStr o) o st (u :: rest) = Ok st' ->
-  exists l vals, c_val st' = CStrs l /\
-    Forall2 (fun t v => conv_str o t = Ok v) (all_tokens o (u :: rest)) vals /\
+  let vals := pos_vals o (length (start_strs st l0)) (all_tokens o (u :: rest)) in
+  exists l, c_val st' = CStrs l /\
     (o_sort o = false -> l = start_strs st l0 ++ vals) /\
     (o_sort o = true -> l = sort_by str_ltb (start_strs st l0 ++ vals)).
 Proof.
   intros Hu Hv H.
-  set (s0 := start_strs st l0) in *.
+  set (s0 := start_strs st l0) in *. simpl.
   pose proof H as H2.
   apply (run_uses_hist (step_gen p KVecStr o) o
-          (fun ts c => exists l vals, c = CStrs l /\ Forall2 (fun t v => conv_str o t = Ok v) ts vals /\
-             Permutation l (s0 ++ vals) /\ (o_sort o = false -> l = s0 ++ vals))) in H; auto.
-  - destruct H as [l [vals [Hc [Hf [Hp He]]]]]. exists l, vals. repeat split; auto.
+          (fun ts c => exists l, c = CStrs l /\
+             Permutation l (s0 ++ pos_vals o (length s0) ts) /\
+             (o_sort o = false -> l = s0 ++ pos_vals o (length s0) ts))) in H; auto.
+  - destruct H as [l [Hc [Hp He]]]. exists l. repeat split; auto.
     intros Hs. apply cont_sorted_gen in H2; auto; [|discriminate]. rewrite Hc in H2. simpl in H2.
     apply (sorted_perm_unique str_ltb str_lt_irrefl str_le_antisym); auto.
     + apply sort_by_sorted; [apply str_lt_irrefl|apply str_lt_le_trans].
     + eapply perm_trans; eauto. apply Permutation_sym, sort_by_perm.
-  - intros ts t c c' [l [vals [-> [Hf [Hp He]]]]] Hs. rewrite step_strs_kind in Hs. inv_bind Hs.
+  - intros ts t c c' [l [-> [Hp He]]] Hs. rewrite step_strs_kind in Hs. inv_bind Hs.
     inversion Hs; subst; clear Hs. apply step_strs_spec in E.
     destruct E as [v [Hc [[Hu' _]|[_ ->]]]]; [congruence|].
-    exists (l ++ [v]), (vals ++ [v]). repeat split.
+    assert (Hlen : length l = length s0 + length ts).
+    { rewrite (Permutation_length Hp), app_length, pos_vals_length. reflexivity. }
+    assert (Hv' : pos_vals o (length s0) (ts ++ [t]) = pos_vals o (length s0) ts ++ [v]).
+    { rewrite pos_vals_app. simpl. unfold conv_str_at in Hc. inv_bind Hc. inversion Hc; subst.
+      rewrite Hlen. reflexivity. }
+    exists (l ++ [v]). rewrite Hv'. repeat split.
+    + rewrite app_assoc. apply Permutation_app_tail. auto.
+    + intros Hs. rewrite (He Hs), app_assoc. reflexivity.
+  - intros ts c [l [-> [Hp He]]]. unfold norm. destruct (o_sort o) eqn:Es; simpl.
+    + exists (sort_by str_ltb l). repeat split; auto; try discriminate.
+      eapply perm_trans; [apply sort_by_perm|auto].
+    + exists l. repeat split; auto.
+  - intros ts c [l [-> Hr]]. simpl. eauto.
+  - rewrite (start_cont_strs st l0 Hv). exists s0. simpl. rewrite app_nil_r. repeat split; auto.
+Qed.
+
+(** every accepted element passed the checks (see also cont_checks_every_element) and
+    Forall2-style: the stored values are exactly [pos_vals] - the checks do not alter them *)
+
+(* ------------------------------------------------------------------ *)
+(** * std::tuple<int,std::string,int>: element k is the k-th value given *)
+
+(** element [k] of the tuple (a, s, b) is the value [t], formatted with the
+    formats of position [k] and converted to the element's type *)
+Definition tuple_elem_ok (o : copts) (a : Z) (s : str) (b : Z) (k : nat) (t : str) : Prop :=
+  match k with
+  | 0 => lex_int (fmt_pos o 0 t) = Ok a
+  | 1 => s = fmt_pos o 1 t
+  | 2 => lex_int (fmt_pos o 2 t) = Ok b
+  | _ => False
+  end.
+
+Theorem cont_tuple_elements p o st u rest st' a0 s0 b0 n0 :
+  c_val st = CTuple a0 s0 b0 n0 ->
+  run_uses_gen (step_gen p KTuple o) o st (u :: rest) = Ok st' ->
+  exists a s b, c_val st' = CTuple a s b (n0 + length (all_tokens o (u :: rest))) /\
+    (forall j t, nth_error (all_tokens o (u :: rest)) j = Some t -> tuple_elem_ok o a s b (n0 + j) t) /\
+    (n0 + length (all_tokens o (u :: rest)) <= 0 \/ 0 < n0 -> a = a0) /\
+    (n0 + length (all_tokens o (u :: rest)) <= 1 \/ 1 < n0 -> s = s0) /\
+    (n0 + length (all_tokens o (u :: rest)) <= 2 \/ 2 < n0 -> b = b0).
+Proof.
+  intros Hv H.
+  apply (run_uses_hist (step_gen p KTuple o) o
+          (fun ts c => exists a s b, c = CTuple a s b (n0 + length ts) /\
+             (forall j t, nth_error ts j = Some t -> tuple_elem_ok o a s b (n0 + j) t) /\
+             (n0 + length ts <= 0 \/ 0 < n0 -> a = a0) /\
+             (n0 + length ts <= 1 \/ 1 < n0 -> s = s0) /\
+             (n0 + length ts <= 2 \/ 2 < n0 -> b = b0))) in H; auto.
+  - intros ts t c c' [a [s [b [-> [He [Ha [Hs Hb]]]]]]] Hst.
+    simpl in Hst. unfold step_tuple in Hst. inv_bind Hst.
+    assert (Hnth : forall j t', nth_error (ts ++ [t]) j = Some t' ->
+                     (j < length ts /\ nth_error ts j = Some t') \/ (j = length ts /\ t' = t)).
+    { intros j t' Hj. destruct (Nat.lt_ge_cases j (length ts)) as [Hl|Hl].
+      - left. split; auto. rewrite nth_error_app1 in Hj; auto.
+      - right. rewrite nth_error_app2 in Hj; auto.
+        destruct (j - length ts) as [|m] eqn:Em; simpl in Hj.
+        + inversion Hj. split; auto. lia.
+        + destruct m; discriminate Hj. }
+    rewrite app_length. simpl length.
+    destruct (n0 + length ts) as [|[|[|m]]] eqn:En; [| | |discriminate Hst].
+    + inv_bind Hst. inversion Hst; subst; clear Hst. exists a2, s, b.
+      split; [f_equal; lia|]. split; [|split; [intros; lia|split; intros; [apply Hs|apply Hb]; lia]].
+      intros j t' Hj. apply Hnth in Hj. destruct Hj as [[Hl Hj]|[-> ->]]; [lia|].
+      replace (n0 + length ts) with 0 by lia. exact E0.
+    + inversion Hst; subst; clear Hst. exists a, (fmt_pos o 1 t), b.
+      split; [f_equal; lia|]. split; [|split; [intros; apply Ha; lia|split; intros; [lia|apply Hb; lia]]].
+      intros j t' Hj. apply Hnth in Hj. destruct Hj as [[Hl Hj]|[-> ->]].
+      * specialize (He _ _ Hj). assert (Hq : n0 + j = 0) by lia. rewrite Hq in *. exact He.
+      * rewrite En. reflexivity.
+    + inv_bind Hst. inversion Hst; subst; clear Hst. exists a, s, a2.
+      split; [f_equal; lia|]. split; [|split; [intros; apply Ha; lia|split; intros; [apply Hs; lia|lia]]].
+      intros j t' Hj. apply Hnth in Hj. destruct Hj as [[Hl Hj]|[-> ->]].
+      * specialize (He _ _ Hj).
+        assert (n0 + j = 0 \/ n0 + j = 1) as [Hq|Hq] by lia; rewrite Hq in *; exact He.
+      * rewrite En. exact E0.
+  - intros ts c [a [s [b [-> Hr]]]]. unfold norm. destruct (o_sort o); simpl; eauto 6.
+  - intros ts c [a [s [b [-> Hr]]]]. simpl. eauto 6.
+  - rewrite Hv. replace (if c_clearp st then clear_cont (CTuple a0 s0 b0 n0) else CTuple a0 s0 b0 n0)
+      with (CTuple a0 s0 b0 n0) by (destruct (c_clearp st); reflexivity).
+    simpl. exists a0, s0, b0. rewrite Nat.add_0_r. split; auto. split; [intros [|j] t Hj; discriminate Hj|auto].
+Qed.
+
+(* ------------------------------------------------------------------ *)
+(** * T[N] / std::array<T,N> without unique data: slot i0 + i gets the i-th value *)
+
+Lemma Forall2_len {A B} (R : A -> B -> Prop) l1 l2 : Forall2 R l1 l2 -> length l1 = length l2.
+Proof. induction 1; simpl; auto. Qed.
+
+Theorem cont_array_content p k n o st u rest st' l0 i0 :
+  arr_kind k n -> o_uniq o = false -> c_val st = CArr l0 i0 ->
+  run_uses_gen (step_gen p k o) o st (u :: rest) = Ok st' ->
+  exists l vals, c_val st' = CArr l (i0 + length (all_tokens o (u :: rest))) /\
+    Forall2 (fun t v => conv_int o t = Ok v) (all_tokens o (u :: rest)) vals /\
+    (o_sort o = false -> firstn (i0 + length vals) l = firstn i0 l0 ++ vals) /\
+    (o_sort o = true -> firstn (i0 + length vals) l = sort_by Z.ltb (firstn i0 l0 ++ vals)).
+Proof.
+  intros Hk Hu Hv H.
+  pose proof H as H2.
+  apply (run_uses_hist (step_gen p k o) o
+          (fun ts c => exists l vals, c = CArr l (i0 + length ts) /\
+             Forall2 (fun t v => conv_int o t = Ok v) ts vals /\
+             Permutation (firstn (i0 + length ts) l) (firstn i0 l0 ++ vals) /\
+             (o_sort o = false -> firstn (i0 + length ts) l = firstn i0 l0 ++ vals))) in H; auto.
+  - destruct H as [l [vals [Hc [Hf [Hp He]]]]]. exists l, vals.
+    rewrite <- (Forall2_len _ _ _ Hf). repeat split; auto.
+    intros Hs. apply cont_sorted_gen in H2; auto; [|discriminate]. rewrite Hc in H2. simpl in H2.
+    apply (sorted_perm_unique Z.ltb Z_lt_irrefl Z_le_antisym).
+    + clear - H2. induction H2; constructor; auto. eapply Forall_impl; [|eauto].
+      intros b Hb. unfold le_of. apply Z.ltb_ge. auto.
+    + apply sort_by_sorted; [apply Z_lt_irrefl|apply Z_lt_le_trans].
+    + eapply perm_trans; eauto. apply Permutation_sym, sort_by_perm.
+  - intros ts t c c' [l [vals [-> [Hf [Hp He]]]]] Hs.
+    assert (Hs' : step_arr (if p then arr_contains_pinned else arr_contains) n o t l (i0 + length ts) = Ok c')
+      by (destruct Hk; subst k; exact Hs).
+    clear Hs. unfold step_arr in Hs'. destruct (Nat.eqb (i0 + length ts) n); [discriminate Hs'|].
+    inv_bind Hs'. inv_bind Hs'. rewrite Hu in Hs'. simpl in Hs'. inversion Hs'; subst; clear Hs'.
+    rewrite lex_int_fmt_pos in E0.
+    assert (Hc : conv_int o t = Ok a0) by (unfold conv_int; rewrite E; destruct a; exact E0).
+    exists (arr_set l (i0 + length ts) a0), (vals ++ [a0]).
+    rewrite app_length. simpl length. replace (i0 + (length ts + 1)) with (S (i0 + length ts)) by lia.
+    rewrite firstn_S_upd. repeat split.
     + apply Forall2_app; auto.
     + rewrite app_assoc. apply Permutation_app_tail. auto.
     + intros Hs. rewrite (He Hs), app_assoc. reflexivity.
   - intros ts c [l [vals [-> [Hf [Hp He]]]]]. unfold norm. destruct (o_sort o) eqn:Es; simpl.
-    + exists (sort_by str_ltb l), vals. repeat split; auto; try discriminate.
+    + eexists _, vals. split; [reflexivity|]. rewrite firstn_sorted_part. repeat split; auto; try discriminate.
       eapply perm_trans; [apply sort_by_perm|auto].
     + exists l, vals. repeat split; auto.
   - intros ts c [l [vals [-> Hr]]]. simpl. eauto.
-  - rewrite (start_cont_strs st l0 Hv). exists s0, []. rewrite app_nil_r. repeat split; auto.
+  - rewrite Hv. replace (if c_clearp st then clear_cont (CArr l0 i0) else CArr l0 i0) with (CArr l0 i0)
+      by (destruct (c_clearp st); reflexivity).
+    simpl. exists l0, []. rewrite Nat.add_0_r, app_nil_r. repeat split; auto.
 Qed.
 
 (* ------------------------------------------------------------------ *)
@@ -437,23 +625,124 @@ Theorem setup_ok_table k o :
   (o_sort o = true -> sortable k = true) /\
   (o_uniq o = true -> has_iter k = true) /\
   (o_clear o = true -> clearable k = true) /\
-  (o_fmts o <> [] -> k <> KTuple) /\
+  ftab_ok k (o_ftab o) = true /\
   (k = KMap -> o_sep o <> COMMA).
 Proof.
   unfold setup_ok. rewrite !andb_true_iff. split.
-  - intros [[[[H1 H2] H3] H4] H5]. repeat split.
+  - intros [[[[H1 H2] H3] H4] H5]. repeat split; auto.
     + intros E. rewrite E in H1. destruct (sortable k); auto.
     + intros E. rewrite E in H2. destruct (has_iter k); auto.
     + intros E. rewrite E in H3. destruct (clearable k); auto.
-    + intros E ->. destruct (o_fmts o); [congruence|discriminate H4].
     + intros -> E. rewrite E in H5. discriminate H5.
-  - intros [H1 [H2 [H3 [H4 H5]]]]. repeat split.
+  - intros [H1 [H2 [H3 [H4 H5]]]]. repeat split; auto.
     + destruct (o_sort o); simpl; auto.
     + destruct (o_uniq o); simpl; auto.
     + destruct (o_clear o); simpl; auto.
-    + destruct (o_fmts o); simpl; auto. destruct k; auto. exfalso. apply H4; [discriminate|reflexivity].
     + destruct k; simpl; auto. unfold ceq. destruct (N.eqb_spec (o_sep o) COMMA); simpl; auto.
       exfalso. apply H5; auto.
+Qed.
+
+(** the format table: general formats only where addFormat() is accepted,
+    position formats only where addFormatPos() is accepted for that position *)
+Theorem ftab_ok_table k tab :
+  ftab_ok k tab = true <->
+  (nth 0 tab [] <> [] -> k <> KTuple) /\
+  (forall i, nth (S i) tab [] <> [] -> pos_fmt_allowed k i = true).
+Proof.
+  unfold ftab_ok. rewrite andb_true_iff, forallb_forall. split.
+  - intros [H1 H2]. split.
+    + intros Hn ->. destruct (nth 0 tab []); [congruence|discriminate H1].
+    + intros i Hn. destruct (Nat.lt_ge_cases (S i) (length tab)) as [Hl|Hl].
+      * specialize (H2 i). rewrite in_seq in H2. assert (Hi : 0 <= i < 0 + (length tab - 1)) by lia.
+        specialize (H2 Hi). destruct (nth (S i) tab []); [congruence|exact H2].
+      * rewrite nth_overflow in Hn by lia. congruence.
+  - intros [H1 H2]. split.
+    + destruct (nth 0 tab []) eqn:E; auto. simpl. destruct k; auto. exfalso. apply H1; [discriminate|reflexivity].
+    + intros i _. destruct (nth (S i) tab []) eqn:E; auto. simpl. apply H2. rewrite E. discriminate.
+Qed.
+
+Lemma nth_set {A} (d x : A) i : forall l j, i < length l ->
+  nth j (firstn i l ++ x :: skipn (S i) l) d = if Nat.eqb j i then x else nth j l d.
+Proof.
+  induction i as [|i IH]; intros l j Hl; destruct l as [|y r]; simpl in Hl; try lia.
+  - destruct j; reflexivity.
+  - destruct j; [reflexivity|]. simpl firstn. simpl skipn. simpl app. simpl nth at 1.
+    change (S j =? S i) with (j =? i). rewrite IH by lia. reflexivity.
+Qed.
+
+Lemma nth_pad {A} (l : list (list A)) m j : nth j (l ++ repeat [] m) [] = nth j l [].
+Proof.
+  destruct (Nat.lt_ge_cases j (length l)) as [H|H].
+  - apply app_nth1; auto.
+  - rewrite app_nth2 by auto. rewrite (nth_overflow l) by auto.
+    destruct (Nat.lt_ge_cases (j - length l) m) as [H2|H2].
+    + apply nth_repeat.
+    + apply nth_overflow. rewrite repeat_length. auto.
+Qed.
+
+(** internAddFormat: the slot gets the format appended, all others are unchanged *)
+Lemma intern_add_nth tab i f j :
+  nth j (intern_add_format tab i f) [] = if Nat.eqb j i then nth i tab [] ++ [f] else nth j tab [].
+Proof.
+  unfold intern_add_format.
+  destruct (Nat.leb_spec (length tab) i) as [H|H].
+  - rewrite nth_set by (rewrite app_length, repeat_length; lia). rewrite !nth_pad. reflexivity.
+  - rewrite nth_set by auto. reflexivity.
+Qed.
+
+(** what a setter accepted stays a table the kind can have *)
+Lemma intern_add_ftab_ok k tab i f :
+  ftab_ok k tab = true ->
+  match i with 0 => gen_fmt_allowed k | S j => pos_fmt_allowed k j end = true ->
+  ftab_ok k (intern_add_format tab i f) = true.
+Proof.
+  intros Ht Ha. apply ftab_ok_table in Ht. destruct Ht as [H1 H2]. apply ftab_ok_table. split.
+  - rewrite intern_add_nth. destruct i; simpl.
+    + intros _ ->. discriminate Ha.
+    + exact H1.
+  - intros j. rewrite intern_add_nth. destruct (Nat.eqb_spec (S j) i) as [<-|Hn]; auto.
+Qed.
+
+Theorem add_format_pos_ok k tab idx f tab' :
+  ftab_ok k tab = true -> add_format_pos k tab idx f = Ok tab' -> ftab_ok k tab' = true.
+Proof.
+  intros Ht H. unfold add_format_pos in H.
+  destruct (Z.ltb_spec idx (-1)); [discriminate H|].
+  assert (Hcase : Z.to_nat (idx + 1) = 0 /\ idx = (-1)%Z \/ exists j, Z.to_nat (idx + 1) = S j /\ idx = Z.of_nat j).
+  { destruct (Z.eq_dec idx (-1)); [left; subst; auto|right]. exists (Z.to_nat idx). split; lia. }
+  destruct k; try discriminate H;
+    repeat match type of H with (if ?b then _ else _) = _ => destruct b eqn:?; try discriminate H end;
+    inversion H; subst; clear H; apply intern_add_ftab_ok; auto;
+    destruct Hcase as [[-> ->]|[j [-> ->]]]; simpl; auto;
+    try (apply Nat.ltb_lt; apply Z.leb_gt in Heqb; lia);
+    try (apply Z.eqb_neq in Heqb; lia);
+    try (apply Nat.ltb_lt; apply Z.leb_gt in Heqb0; lia).
+Qed.
+
+Theorem add_format_ok k tab f tab' :
+  ftab_ok k tab = true -> add_format k tab f = Ok tab' -> ftab_ok k tab' = true.
+Proof.
+  intros Ht H. unfold add_format in H. destruct (gen_fmt_allowed k) eqn:E; [|discriminate H].
+  inversion H; subst. apply intern_add_ftab_ok; auto.
+Qed.
+
+(** who accepts addFormatPos( idx, f), idx >= -1 *)
+Theorem add_format_pos_table k tab idx f :
+  (-1 <= idx)%Z ->
+  (is_ok (add_format_pos k tab idx f) = true <->
+   match k with
+   | KVec | KVecStr => True
+   | KArr n | KStdArr n => (idx < Z.of_nat n)%Z
+   | KTuple => (0 <= idx < 3)%Z
+   | _ => False
+   end).
+Proof.
+  intros Hi. unfold add_format_pos. destruct (Z.ltb_spec idx (-1)); [lia|].
+  destruct k; simpl; try tauto; try (split; [discriminate|contradiction]).
+  - destruct (Z.leb_spec (Z.of_nat n) idx); simpl; split; auto; try lia; discriminate.
+  - destruct (Z.leb_spec (Z.of_nat n) idx); simpl; split; auto; try lia; discriminate.
+  - destruct (Z.eqb_spec idx (-1)); simpl; [split; [discriminate|lia]|].
+    destruct (Z.leb_spec 3 idx); simpl; split; auto; try lia; discriminate.
 Qed.
 
 Theorem sortable_table k :
